@@ -74,8 +74,7 @@ theorem delete_never_panics (s : Helm.Storage.Objs) (k : String) :
 
 /-! ## repository index -/
 
-/-- An index without null entries loads without a crash, whatever the versions, their validity
-and order ... -/
+/-- An index loads without a crash, whatever the versions, their validity and order ... -/
 theorem index_load_never_panics (raw : List Helm.Index.Entry) :
     Helm.Index.loadEntries (raw.map some) ≠ .panic := by
   rw [Helm.Index.loadEntries_map_some]; simp
@@ -103,10 +102,10 @@ theorem index_get_never_panics (l : List Helm.Index.Entry) (version : String) (o
           simp only [h2]
           cases l.find? (fun e => e.ver.isSome && e.sat) <;> simp
 
-/-- A null entry does crash (known finding, shared with C18). -/
-theorem counterexample_index_null (e : Helm.Index.Entry) (he : e.valid = true) :
-    Helm.Index.loadEntries [none, some e] = .panic := by
-  simp [Helm.Index.loadEntries, he]
+/-- Null entries do not crash loading either (they used to: repaired in /repo). -/
+theorem index_load_with_nulls_never_panics (raw : List (Option Helm.Index.Entry)) :
+    Helm.Index.loadEntries raw ≠ .panic := by
+  simp [Helm.Index.loadEntries]
 
 /-! ## Chart.yaml dependency import-values -/
 
